@@ -129,6 +129,7 @@ type oidcConfig struct {
 	subjects []string // nil = not configured
 	withAlg  bool     // which issuer (JWKS flavour) it uses
 	far      bool     // times +-30 days instead of +-1h
+	nearPast bool     // "past" is only 5 s before the configuration runs (an expiry that has just passed must be refused: no leeway is documented); "future" stays +1h so that the run's duration cannot turn it into the past
 	edge     bool     // configuration-boundary run: reduced product (sig in {rs256-k1, unpublished key}, nbf absent)
 }
 
@@ -475,6 +476,8 @@ func runOIDC(c *vk.Ctx) {
 		)
 	}
 
+	// time boundary (both tiers, reduced product): expiry / issue times only 20 s in the past
+	cfgs = append(cfgs, oidcConfig{name: "K:aliases=2,subjects=2,times=-5s/+1h", aliases: both, audience: theAudience, subjects: []string{subj1, subj2}, nearPast: true, edge: true})
 	// configuration boundaries (both tiers, reduced product): an empty string among the aliases / subjects
 	cfgs = append(cfgs,
 		oidcConfig{name: "G:aliases=[\"\"],subjects=none", aliases: []string{""}, audience: theAudience, edge: true},
@@ -489,7 +492,7 @@ func runOIDC(c *vk.Ctx) {
 
 	now := time.Now()
 	// token cache: the token of a case depends only on (issuer flavour, time base), not on the config
-	type tokKey struct{ withAlg, far bool }
+	type tokKey struct{ withAlg, far, nearPast bool }
 	tokens := map[tokKey][]string{}
 
 	totalAcc, totalRej, totalUnj := 0, 0, 0
@@ -500,6 +503,10 @@ func runOIDC(c *vk.Ctx) {
 			d = 30 * 24 * time.Hour
 		}
 		past, future := now.Add(-d).Unix(), now.Add(d).Unix()
+		if cfg.nearPast {
+			// relative to the start of THIS configuration's run: its reduced product takes a second or two
+			past = time.Now().Add(-5 * time.Second).Unix()
+		}
 
 		a, err := oidc.NewRemoteOidcAuthenticator(is.srv.URL, cfg.aliases, cfg.audience, cfg.subjects, nil)
 		if err != nil && cfg.edge {
@@ -512,7 +519,7 @@ func runOIDC(c *vk.Ctx) {
 			c.HarnessError("NewRemoteOidcAuthenticator(%s): %v", cfg.name, err)
 			return
 		}
-		tk := tokKey{cfg.withAlg, cfg.far}
+		tk := tokKey{cfg.withAlg, cfg.far, cfg.nearPast}
 		toks := tokens[tk]
 		build := toks == nil
 		if build {
